@@ -697,7 +697,7 @@ def run(ctx):
             if len(ctx.divergences) < 20:
                 ctx.diverge(f'word {h} `{line}`: model `{got[:260]}` vs implementation `{want[:260]}`',
                             {'metamodel': mm.lines(), 'letters': lines})
-    ctx.assumptions += ['the Lean model contains Set/Add/Remove/Move and the stack; Delete and Compound are judged by the oracle only',
+    ctx.assumptions += ['the Lean model contains Set/Add/Remove/Move, Compound and the stack; Delete is judged by the oracle only',
                         'commands that steal are excluded from the oracle (the statement excludes them) but included in the correspondence']
 
 
